@@ -1094,3 +1094,83 @@ func flowsToResult(v ssa.Value, seen map[ssa.Value]bool) string {
 	}
 	return ""
 }
+
+// ---------------------------------------------------------------- E-FLOATPAIR
+
+func init() {
+	register(&Rule{ID: "E-FLOATPAIR", Props: []string{"C14", "C05", "C01"}, Floor: 1,
+		Doc: "the pair coercion that selects the binary floating-point fast path of the arithmetic operators, by interpretation on two symbolic operands: it reports success only on paths on which BOTH operands passed a float type test, and the two floats it returns are those operands in order (an operand that is not a float must send the operator down the exact decimal path; a success that looks at one operand only computes with a zero in place of the other)",
+		Run: ruleEFloatPair})
+}
+
+func ruleEFloatPair(p *Program, r *Reporter) {
+	nr := numericRoles(p)
+	fn := nr.toFloatPair
+	if fn == nil {
+		r.OK(token.NoPos, "pair coercion", "the operators have no float pair coercion (each operand is coerced on its own; E-OPCHAIN decides the fast path)")
+		return
+	}
+	key := p.FuncName(fn) + " success"
+	e := newEngine(p, plainDom{})
+	e.MaxVisits = 2
+	x := avSym{id: e.fresh(), tag: "x"}
+	y := avSym{id: e.fresh(), tag: "y"}
+	outs := e.Run(fn, []AV{x, y}, e.WithInit(fn.Pkg, newState()))
+	if e.Aborted != "" {
+		r.Unknown(fn.Pos(), key, "path enumeration aborted: "+e.Aborted)
+		return
+	}
+	isFloat := func(ts []string) bool {
+		for _, t := range ts {
+			if t == "float64" || t == "float32" {
+				return true
+			}
+		}
+		return false
+	}
+	succ, total := 0, 0
+	for _, o := range outs {
+		if o.Cut || o.Panic || len(o.Res) != 3 {
+			continue
+		}
+		total++
+		okv, isConst := o.Res[2].(avConst)
+		if isConst && !constant.BoolVal(okv.v) {
+			continue
+		}
+		px, _ := o.St.subjectTests(x)
+		py, _ := o.St.subjectTests(y)
+		if !isConst {
+			r.Bad(o.Ret.Pos(), key, "a path returns a success flag that is not decided by the type tests of the operands: "+avKey(o.Res[2]))
+			return
+		}
+		if !isFloat(px) || !isFloat(py) {
+			which := "left"
+			if isFloat(px) {
+				which = "right"
+			}
+			r.Bad(o.Ret.Pos(), key, "a path reports success although the "+which+" operand has not passed a float type test: the fast path then computes with a zero in its place")
+			return
+		}
+		// the floats returned are the operands, in order
+		for i, want := range []avSym{x, y} {
+			sy, ok := o.Res[i].(avSym)
+			base := AV(nil)
+			if ok {
+				base = sy.payload
+			}
+			if !ok || !strings.HasPrefix(sy.tag, "asserted:float") || avKey(base) != avKey(want) {
+				if cv, isC := o.Res[i].(avSym); !isC || !strings.Contains(avKey(cv), avKey(want)) {
+					r.Bad(o.Ret.Pos(), key, fmt.Sprintf("result %d of a successful path is %s, not the float value of operand %d", i, renderVal(o.Res[i]), i+1))
+					return
+				}
+			}
+		}
+		succ++
+	}
+	if succ == 0 {
+		r.Unknown(fn.Pos(), key, fmt.Sprintf("no path reports success (%d paths)", total))
+		return
+	}
+	r.OK(fn.Pos(), key, fmt.Sprintf("%d of %d paths report success, each after float type tests of both operands, returning them in order", succ, total))
+}
